@@ -57,7 +57,9 @@ def parseCtx : String → Option CtxKind
   | "gcp" => some .gcp | "gcpnoreply" => some .gcpNoReply | "none" => some .none | _ => none
 
 def parseErr : String → Option ErrKind
-  | "nil" => some .nil | "other" => some .other | "declient" => some .deClient | "deserver" => some .deServer | _ => none
+  | "nil" => some .nil | "other" => some .other
+  | "other.notfound" => some .other | "other.canceled" => some .other | "other.internal" => some .other
+  | "other.exhausted" => some .other | "other.aborted" => some .other | "other.plain" => some .other | "declient" => some .deClient | "deserver" => some .deServer | _ => none
 
 /-- the order of the ready list the implementation published in this step (map iteration order) -/
 def orderOf (obs : String) : List Slot :=
@@ -217,6 +219,68 @@ def handle (sess : Sess) (rep : Report) (ln : Nat) (toks : List String) (obs : S
           if obs == "bad-op" then (sess, rep)
           else ({ sess with model := none }, { rep.msg s!"DIVERGE line={ln} model=bad-op impl={obs}" with diverged := rep.diverged + 1 })
     | _, _, _ => (sess, rep.msg s!"BAD line={ln}")
+  | "done2" :: rest =>
+    -- two completions with a client-side deadline error, run concurrently by the harness while it
+    -- stalls the balancer lock: the model must explain the outcome by some order of two atomic
+    -- completions (C07: one replacement per channel)
+    if !sess.active then (sess, rep.bump "pool.skipped_after_divergence") else
+    let a := args rest
+    match (arg a "a").toNat?, (arg a "b").toNat? with
+    | some ca, some cb =>
+      if obs == "bad-op" then
+        match sess.model with
+        | some s => if (s.calls.any (·.id == ca)) && (s.calls.any (·.id == cb)) && ca != cb
+                    then ({ sess with model := none }, { rep.msg s!"DIVERGE line={ln} model=ok impl=bad-op" with diverged := rep.diverged + 1 })
+                    else (sess, rep)
+        | none => (sess, rep)
+      else
+      let mk (c : Nat) : Op := .done c .deClient { key := "", keys := [] }
+      let parts := obs.splitOn " ; "
+      let rep := rep.bump "pool.concurrent_completion_pair"
+      let explain (first second : Op) : Option (St × St × List String × List String × String) :=
+        match sess.model with
+        | none => none
+        | some s =>
+          let (s1, e1) := step s first
+          let (s2, e2) := step s1 second
+          let strs1 := e1.map evStr
+          let strs2 := e2.map evStr
+          -- the implementation prints: events of both, one "ok", events of the wake-ups, digest
+          let line := " ; ".intercalate ((strs1.filter (· != "ok")) ++ (strs2.filter (· != "ok")) ++ ["ok", digest s2])
+          some (s1, s2, strs1, strs2, line)
+      let canon (l : String) : String := l
+      let ab := explain (mk ca) (mk cb)
+      let ba := explain (mk cb) (mk ca)
+      let ok (x : Option (St × St × List String × List String × String)) : Bool :=
+        match x with | some (_, _, _, _, line) => canon line == canon obs | none => false
+      let chosen := if ok ab then some (true, ab) else if ok ba then some (false, ba) else none
+      let feed (mon : MonState) (rep : Report) (op1 op2 : Op) (evs1 evs2 : List String) (mid : Option ImplView) : MonState × Report :=
+        let (mon, fails1, hits1) := mon.observe op1 evs1 mid
+        let (mon, fails2, hits2) := mon.observe op2 evs2 (parseDigest obs)
+        let rep := (fails1 ++ fails2).foldl (fun rep (p, c) =>
+          { rep.msg s!"MONITOR property={p} clause={c} line={ln}" with monitorFails := rep.monitorFails + 1 }) rep
+        (mon, (hits1 ++ hits2).foldl (fun rep h => rep.bump h) rep)
+      match chosen with
+      | some (abOrder, some (s1, s2, strs1, strs2, _)) =>
+        let (o1, o2) := if abOrder then (mk ca, mk cb) else (mk cb, mk ca)
+        let (mon, rep) := feed sess.mon rep o1 o2 strs1 strs2 (parseDigest (digest s1))
+        ({ sess with model := some s2, mon := mon }, rep)
+      | _ =>
+        -- no order explains it: the monitors see the creation events split between the two completions
+        let evs := parts.filter fun e => !(e.startsWith "dg ") && e != "ok"
+        let creations := evs.filter fun e => e.startsWith "new "
+        let (evsA, evsB) :=
+          if creations.length ≥ 2 then
+            -- the second creation (and what follows it) belongs to the second completion
+            let idx := (evs.zipIdx.filter fun p => p.1.startsWith "new ").map (·.2)
+            let cut := idx.getD 1 evs.length
+            (evs.take cut ++ ["ok"], evs.drop cut ++ ["ok"])
+          else (evs ++ ["ok"], ["ok"])
+        let (mon, rep) := feed sess.mon rep (mk ca) (mk cb) evsA evsB none
+        let shown := match ab with | some (_, _, _, _, line) => line | none => "(model lost)"
+        ({ sess with model := none, mon := mon },
+         if sess.model.isSome then { rep.msg s!"DIVERGE line={ln} model={shown.take 300} impl={obs.take 300}" with diverged := rep.diverged + 1 } else rep)
+    | _, _ => (sess, rep.msg s!"BAD line={ln}")
   | "pick2" :: rest =>
     -- two plain picks on one picker, run concurrently by the harness while it stalls the balancer
     -- lock: the model must explain the outcome by *some* order of two atomic picks (C02)
